@@ -2000,6 +2000,25 @@ def _accum_component(s, term, triplets):
         while is_call(x) and head(strip(x[1])) == "glob" and strip(x[1])[1] in ("builtins.list", "builtins.tuple") and len(x[2]) == 1 and not x[3]:
             x = strip(x[2][0])
         return x
+    # row, col, data = zip(*triplets)  (possibly list(..) of each, possibly guarded for the empty list, whose transposition is three empty
+    # sequences): component k of the transposition is [t[k] for t in triplets]
+    u = src(t)
+    if head(u) == "item" and isinstance(u[2], int):
+        z = strip(u[1])
+        if head(z) == "ite":
+            alts = [strip(z[2]), strip(z[3])]
+            empties = [a_ for a_ in alts if head(a_) in ("tuple", "list") and all(head(strip(e_)) in ("tuple", "list") and not strip(e_)[1] for e_ in a_[1])]
+            rest = [a_ for a_ in alts if a_ not in empties]
+            if len(empties) == 1 and len(rest) == 1:
+                z = rest[0]
+        z = src(z)
+        # map(list, zip(..)) / (list(c) for c in zip(..)): the same columns, each materialised
+        if is_call(z, "builtins.map") and len(z[2]) == 2 and not z[3] and strip(z[2][0]) in (("glob", "builtins.list"), ("glob", "builtins.tuple")):
+            z = src(z[2][1])
+        elif head(z) == "comp" and len(z[3]) == 1 and not z[3][0][1] and src(z[2]) == z[3][0][0]:
+            z = src(z[3][0][0][3])
+        if is_call(z, "builtins.zip") and len(z[2]) == 1 and not z[3] and head(z[2][0]) == "star" and src(z[2][0][1]) == triplets:
+            return u[2]
     if head(t) == "comp" and t[1] == "list" and len(t[3]) == 1 and not t[3][0][1] and src(t[3][0][0][3]) == triplets:
         e = strip(t[2])
         if head(e) == "sub" and strip(e[1]) == t[3][0][0] and is_const(e[2]) and isinstance(e[2][2], int):
